@@ -38,8 +38,9 @@ CHECKS.update({
             "and at every later point of the history (cache-coherence invariant + symbolic execution of the cache-less Decrypt).",
             "and at every later point of the history (cache-coherence invariant + symbolic execution of the cache-less Decrypt); AND inside one long-lived process with key caches of any policy and capacity: after any "
             "history of new factories/sessions, encrypts and decrypts under any fault plans, clock changes and revocations, a fault-free Decrypt in any live session of the same partition id returns exactly the payload "
-            "(total correctness: liveness invariant on reference counts with a ghost map of holds, Envelope/Live.v 2900 lines).",
-            "Not in the theorems: histories that close sessions/factories or use the session cache, region-suffixed ids, stored rows with creation stamp 0 (side condition nz_store), concurrency (C08/C16 models); "
+            "(total correctness: liveness invariant on reference counts with a ghost map of holds, Envelope/Live.v 2900 lines); with Session.Close in the history too for factories whose sessions own no key cache "
+            "(shared IK cache or IK caching off, Envelope/LiveClose.v).",
+            "Not in the theorems: histories that close per-session key caches or factories or use the session cache, region-suffixed ids, stored rows with creation stamp 0 (side condition nz_store), concurrency (C08/C16 models); "
             "these are decided by the correspondence and the monitors.", "6/C01"),
  "C02": env("Fault plans (err / false duplicate / error-after-write on every metastore, KMS, AEAD, allocator call, singles and pairs) on cold/warm/rotating states: a returned record's IK row and SK row must be in the "
             "authoritative store at return and a fresh process must decrypt it; an unfaulted encrypt must succeed. PROVED over all histories (any fault plans, policies, evictions, restarts, revocations; one "
@@ -48,8 +49,11 @@ CHECKS.update({
             "The fresh-process clause is a theorem too (C02_fresh_process_decrypts). Not in the theorems: region-suffixed ids, several services in one metastore, 'once the faults stop the next operation succeeds' (monitor).", "6/C02"),
  "C03": env("AEAD/KMS/secret-factory call traces must equal the model's; payload sealed only under a data key generated in the same operation, data key used once, real (key, nonce) pairs unique, plaintext scan of rows/records/log lines/KMS traffic.",
             "Nonce/key freshness of crypto/rand is an assumption; the theorem is that the code asks for a fresh key and nonce every time.", "6/C03"),
- "C04": env("Boundary-clock histories: no record under an expired IK, no IK created under an expired SK (when no fault is injected), IK dropped within one interval of its SK's expiry.",
-            "Known findings C04-IK (decrypt-path refresh) are reported, not suppressed for other causes.", "6/C04"),
+ "C04": env("Boundary-clock histories: no record under an expired IK, no IK created under an expired SK (when no fault is injected), IK dropped within one interval of its SK's expiry. PROVED over all histories "
+            "(clause 1): an unfaulted Encrypt that returns a record wrote it under an intermediate key that is not expired at the time of the operation, however the key was obtained - cache hit, stale reload, "
+            "metastore load, creation, duplicate fallback (Envelope/Expiry.v; policy sanity ExpireKeyAfter >= CreateDatePrecision + 1 s).",
+            "Clauses 2-3 (system-key side) are refuted on the faithful model by known findings C04-IK (decrypt-path refresh) and C04-DUP (duplicate fallback), both with computed witnesses; outside those "
+            "signatures they are decided by the correspondence and the monitor.", "6/C04"),
  "C05": env("Revocation of latest/older IK/SK at boundary offsets: bound of one interval (IK) / two intervals (parent SK) when a later stamp is creatable.", "Known finding C05-IK.", "6/C05"),
  "C07": env("Every mutation kind (bit flips, truncations, splices, nil fields, foreign parents) on genuine records plus corrupted metastore rows: decrypt returns the original payload of the Data it carries or an error, never other bytes, never panics.",
             "Symbolic AEAD: a modified ciphertext opens under no key.", "6/C07"),
